@@ -270,6 +270,131 @@ def gen_optimize(rng, backend):
                 share=rng.random() < 0.5, optimize=rng.choice(["run", "run", "explicit", "method"]))
 
 
+def gen_handover_index(rng, backend):
+    """subsystem INDEX versus POSITION in the register at the hand-over of measured values: an earlier program measures
+    (post-selected, hence scripted) one to three subsystems and deletes one whose index lies below / between / above
+    them -- or creates a new subsystem and measures it -- and a later program feeds the values forward.  With a hole
+    in the register the k-th valid subsystem is not subsystem k."""
+    n = 3 if backend == "fock" else rng.randint(3, 4)       # (a mixed 4-mode Fock register is too slow for the quick tier)
+    sel = lambda: rng.choice([0.25, -0.5, 0.75, 0.125, -0.375])
+    meas_modes = rng.sample(range(n), rng.choice([1, 2, 2] if backend == "fock" else [1, 2, 2, 3]))
+    rel = rng.choice(["below", "below", "between", "above", "none"] + ([] if backend == "fock" else ["new"]))
+    others = [m for m in range(n) if m not in meas_modes]
+    segA = [dict(cls="Coherent", regs=[m], pars=[0.25 + 0.125 * m, 0.25]) for m in range(n)]
+    if n >= 2:
+        a, b = rng.sample(range(n), 2)
+        segA.append(dict(cls="BSgate", regs=[a, b], pars=[0.375, 0.25]))
+    dele = None
+    if rel in ("below", "between", "above") and others:
+        lo, hi = min(meas_modes), max(meas_modes)
+        cands = {"below": [m for m in others if m < hi], "between": [m for m in others if lo < m < hi],
+                 "above": [m for m in others if m > lo]}[rel] or others
+        dele = rng.choice(cands)
+    newm = None
+    if rel == "new" and backend != "bosonic":
+        newm = n
+    ms = [dict(cls="MeasureHomodyne", regs=[m], pars=[rng.choice([0.0, 0.25])], select=sel()) for m in meas_modes]
+    body = list(ms)
+    if dele is not None:
+        body.insert(rng.randint(0, len(body)), dict(cls="Del", regs=[dele]))
+    if newm is not None:
+        body += [dict(cls="New", k=1), dict(cls="Dgate", regs=[newm], pars=[0.25, 0.5]),
+                 dict(cls="MeasureHomodyne", regs=[newm], pars=[0.0], select=sel())]
+        meas_modes = meas_modes + [newm]
+    segA += body
+    live = [m for m in range(n + (1 if newm is not None else 0)) if m != dele]
+    segB = []
+    for src in meas_modes:
+        tgt = rng.choice([m for m in live if m != src] or live)
+        segB.append(dict(cls=rng.choice(["Dgate", "Xgate", "Zgate", "Rgate"]), regs=[tgt], pars=[dict(m=src, k=rng.choice([1, 0.5, -1]))],
+                         dagger=rng.random() < 0.3))
+        if segB[-1]["cls"] == "Dgate":
+            segB[-1]["pars"].append(0.0)
+    segs = [segA, segB]
+    if rng.random() < 0.4:       # a third program that still needs the values (handed over twice)
+        src = rng.choice(meas_modes)
+        segs.append([dict(cls="Zgate", regs=[rng.choice([m for m in live if m != src] or live)], pars=[dict(m=src, k=0.5)])])
+    return dict(backend=backend, n=n, opts={"cutoff_dim": 4} if backend == "fock" else OPTS[backend], args={}, segs=segs,
+                succ=[False] + [True] * (len(segs) - 1), share=False, expect_ok=True)
+
+
+def _cplx(z):
+    return dict(re=float(np.real(z)), im=float(np.imag(z)))
+
+
+def gen_arrays(rng, backend):
+    """ARRAY-valued operation parameters handed over by the user (every dtype: complex / float / int, writable and
+    read-only), followed by gates and a post-selected measurement on a strict subset of the modes; the program is then
+    run in every pattern and re-run: parameters are snapshotted by value, dtype and identity.
+    bosonic: ops.Bosonic(weights, means, covs) on exactly one / on two modes, the other modes single Gaussians;
+    fock: Ket / DensityMatrix (one and two modes); gaussian + fock: Interferometer, GaussianTransform, Gaussian."""
+    n = rng.randint(2, 3)
+    ro = rng.random() < 0.3
+    seg = []
+    th = 0.5
+    c, sn = float(np.cos(th)), float(np.sin(th))
+    U_float = dict(arr=[[c, -sn], [sn, c]], dtype="float", ro=ro)
+    U_cplx = dict(arr=[[_cplx(c), _cplx(-sn * 1j)], [_cplx(-sn * 1j), _cplx(c)]], dtype="complex", ro=ro)
+    U_int = dict(arr=[[0, 1], [1, 0]], dtype="int", ro=ro)
+    S_int = dict(arr=[[1, 0], [1, 1]], dtype="int", ro=ro)                 # a shear: symplectic with integer entries
+    S_float = dict(arr=[[1.25, 0.0], [0.0, 0.8]], dtype="float", ro=ro)
+    V_float = dict(arr=[[1.5, 0.25], [0.25, 0.75]], dtype="float", ro=ro)  # a valid one-mode covariance (hbar = 2)
+    m0 = rng.randrange(n)
+    rest = [m for m in range(n) if m != m0]
+    if backend == "bosonic":
+        dts = rng.choice([("complex", "complex", "float"), ("complex", "complex", "float"), ("float", "float", "float")])
+        cat = [rng.choice([1.0, 1.25]), rng.choice([0.0, 0.25]), 0]
+        def bos(m):
+            return dict(cls="Bosonic", regs=[m], pars=[dict(cat=cat, which=i, dtype=dts[i], ro=ro) for i in range(3)])
+        seg.append(bos(m0))
+        if len(rest) >= 2 and rng.random() < 0.3:
+            seg.append(bos(rest[-1]))
+        for m in rest:
+            if not any(o["regs"] == [m] for o in seg):
+                seg.append(rng.choice([dict(cls="Squeezed", regs=[m], pars=[0.25, 0.25]), dict(cls="Coherent", regs=[m], pars=[0.5, 0.125])]))
+    elif backend == "fock":
+        D = OPTS["fock"]["cutoff_dim"]
+        kind = rng.choice(["ket", "dm", "ket2", "interf", "gt"])
+        v = [0.75, 0.5, 0.375, 0.125, 0.0][:D]
+        nrm = float(np.sqrt(sum(x * x for x in v)))
+        v = [x / nrm for x in v]
+        if kind == "ket":
+            dt = rng.choice(["complex", "float"])
+            seg.append(dict(cls="Ket", regs=[m0], pars=[dict(arr=[_cplx(x) for x in v] if dt == "complex" else v, dtype=dt, ro=ro)]))
+        elif kind == "dm":
+            seg.append(dict(cls="DensityMatrix", regs=[m0], pars=[dict(arr=[[_cplx(a * b) for b in v] for a in v], dtype="complex", ro=ro)]))
+        elif kind == "ket2":
+            a, b = m0, rest[0]
+            seg.append(dict(cls="Ket", regs=[a, b], pars=[dict(arr=[[_cplx(x * y) for y in v] for x in v], dtype="complex", ro=ro)]))
+        elif kind == "interf":
+            seg += [dict(cls="Coherent", regs=[m0], pars=[0.25, 0.5]),
+                    dict(cls="Interferometer", regs=[m0, rest[0]], pars=[rng.choice([U_float, U_cplx, U_int])])]
+        else:
+            seg += [dict(cls="Coherent", regs=[m0], pars=[0.125, 0.5]), dict(cls="GaussianTransform", regs=[m0], pars=[S_float])]
+    else:
+        kind = rng.choice(["interf", "interf", "gt", "gauss"])
+        seg.append(dict(cls="Coherent", regs=[m0], pars=[0.5, 0.25]))
+        if kind == "interf":
+            seg.append(dict(cls="Interferometer", regs=[m0, rest[0]], pars=[rng.choice([U_float, U_cplx, U_int])]))
+        elif kind == "gt":
+            seg.append(dict(cls="GaussianTransform", regs=[m0], pars=[rng.choice([S_int, S_float])]))
+        else:
+            seg.append(dict(cls="Gaussian", regs=[m0], pars=[V_float]))
+    # gates, then a post-selected measurement on a strict subset
+    seg.append(dict(cls="BSgate", regs=[m0, rest[0]], pars=[0.375, 0.25]))
+    if len(rest) > 1:
+        seg.append(dict(cls="BSgate", regs=[rest[0], rest[1]], pars=[0.625, 0.0]))
+    mm = rng.choice(rest)
+    tail = [dict(cls="MeasureHomodyne", regs=[mm], pars=[0.25], select=rng.choice([0.25, -0.125]))]
+    if backend == "gaussian" and rng.random() < 0.3:
+        tail = [dict(cls="MeasureHeterodyne", regs=[mm], pars=[], select=None)]
+    segs = [seg + tail]
+    if rng.random() < 0.4:
+        segs.append([dict(cls="Rgate", regs=[m0], pars=[0.375])])
+    return dict(backend=backend, n=n, opts=OPTS[backend], args={}, segs=segs, succ=[False] * len(segs), share=False,
+                expect_ok=not any(o.get("select") is None and er.kind_of(o["cls"]) == "meas" for sg in segs for o in sg))
+
+
 def gen_history(rng, backend):
     """register histories that `can_follow` must tell apart / accept:
     v1: p1 deletes its last subsystem, p2 is built INDEPENDENTLY over the remaining live modes (same live modes, other
@@ -607,6 +732,12 @@ def one_session(ctx, sf, spec, reqs, pending, kinds=("list", "seq", "cat", "rese
         if all(fol) and err == "RuntimeError":
             ctx.fail(f"can-follow-rejected:{pat}:{backend}", f"{backend}: pattern '{pat}' rejected a program whose initial register "
                      "equals its predecessor's final register", rp)
+    if spec.get("expect_ok"):
+        for pat, r in results.items():
+            ctx.oracle_cases += 1
+            if r["err"] is not None:
+                ctx.fail(f"valid-program-raised:{r['err']}:{backend}", f"{backend}: a valid session ({pat}) raised {r['err']}: "
+                         + (r["steps"][-1].get("tb") or "")[-200:], rp)
     if spec.get("expect_last_error"):
         # spec-level truth: the last run reads a measured value no program of THIS engine session has produced
         r = results.get("custom")
@@ -1328,6 +1459,8 @@ def run(ctx, sf):
                 spec = gen_runopts(rng, backend)
             if k % 6 == 3:
                 spec = gen_optimize(rng, backend)
+            if k % 6 == 0:
+                spec = gen_handover_index(rng, backend) if (k // 6) % 2 == 0 else gen_arrays(rng, backend)
             one_session(ctx, sf, spec, reqs, pending)
             if k % 3 == 1:
                 cross_backend_check(ctx, sf, spec)
